@@ -130,8 +130,68 @@ def check_across_processes(ctx):
             ctx.phi_fail("repeat_same_inputs_bit_identical", case, key="c11:across-processes")
 
 
+def check_callback_list_members(ctx):
+    """`CallbackList` (theorem `CallbackList.member_evolves_alone`): every member of a list of callbacks
+    reports exactly what it reports when it is the only callback — wherever it stands in the list, whatever
+    stands beside it (another logging callback with a different smoothing factor, a progress bar, a nested
+    list).  Members are real `LoggingCallback`s with distinguishable smoothing factors, so handing one
+    member another member's state would show in its records."""
+    from lerax.wrapper import TimeLimit
+    rng = ctx.rng
+    for rep in range(ctx.budget(1, 3)):
+        env = TimeLimit(random_tabular(rng, p_term=0.15, p_trunc=0.0), int(rng.integers(2, 5)))
+        E, T = (2, 6) if rep % 2 == 0 else (1, 9)
+        algo = [PPO(num_envs=E, num_steps=T, num_epochs=1, num_batches=1), A2C(num_envs=E, num_steps=T)][rep % 2]
+        total = 5 * E * T
+        seed = int(rng.integers(0, 2**31))
+        kp, k0 = jr.split(jr.key(seed))
+        policy = MLPActorCriticPolicy(env, feature_size=4, feature_width=8, feature_depth=1, value_width=8,
+                                      value_depth=1, action_width=8, action_depth=1, key=kp)
+        alphas = {"a": 0.3, "b": 0.85}
+
+        def member(tag):
+            rec = RecordingBackend()
+            return rec, LoggingCallback(rec, name="m" + tag, alpha=alphas[tag])
+
+        solo = {}
+        for tag in alphas:
+            rec, cb = member(tag)
+            algo.learn(env, policy, total, key=k0, callback=cb)
+            jax.effects_barrier()
+            solo[tag] = list(rec.records)
+        layouts = {
+            "list[a,b]": lambda a, b: [a, b],
+            "list[b,progress,a]": lambda a, b: [b, ProgressBarCallback(), a],
+            "nested[[a],[b]]": lambda a, b: CallbackList(callbacks=[CallbackList(callbacks=[a]), CallbackList(callbacks=[b])]),
+        }
+        if ctx.quick:
+            layouts.pop("list[b,progress,a]")
+        for lname, mk in layouts.items():
+            (ra, a), (rb, b) = member("a"), member("b")
+            algo.learn(env, policy, total, key=k0, callback=mk(a, b))
+            jax.effects_barrier()
+            for tag, rec in (("a", ra), ("b", rb)):
+                got, want = list(rec.records), solo[tag]
+                same = len(got) == len(want) and all(
+                    g[0] == w[0] and set(g[1]) == set(w[1]) and
+                    all(np.isclose(g[1][k], w[1][k], rtol=1e-4, atol=1e-6, equal_nan=True) for k in w[1])
+                    for g, w in zip(got, want))
+                differs_between_members = solo["a"] != solo["b"]
+                case = {"kind": "callback-list-member", "layout": lname, "member": tag, "alpha": alphas[tag],
+                        "algo": type(algo).__name__, "num_envs": E, "num_steps": T, "seed": seed}
+                ctx.case(case, differs_between_members, sample={**case, "records_alone": want[:3], "records_in_list": got[:3]}
+                         if rep == 0 and tag == "a" else None)
+                ctx.count("callback-list:" + lname)
+                if not same:
+                    ctx.phi_fail("callback_list_member_reports_as_when_alone",
+                                 {**case, "records_alone": want, "records_in_list": got},
+                                 key="c11:callback_list_member")
+        ctx.gc(1)
+
+
 def run(ctx):
     check_across_processes(ctx)
+    check_callback_list_members(ctx)
     work = os.path.join(VERIF, ".work", f"c11_{os.getpid()}")
     os.makedirs(work, exist_ok=True)
     try:
